@@ -73,7 +73,15 @@ impl<'a> Lexer<'a> {
 
     /// consume the whitespace sequence following the stream start
     pub fn next_stream(&mut self) -> Result<()> {
-        let pos = self.skip_whitespace(self.pos)?;
+        let mut pos = self.skip_whitespace(self.pos)?;
+        // comments may precede the keyword like any other token
+        while self.buf.get(pos) == Some(&b'%') {
+            pos += 1;
+            if let Some(off) = self.buf[pos..].iter().position(|&b| b == b'\n' || b == b'\r') {
+                pos += off+1;
+            }
+            pos = self.skip_whitespace(pos)?;
+        }
         if !self.buf[pos ..].starts_with(b"stream") {
             // bail!("next token isn't 'stream'");
         }
